@@ -561,14 +561,53 @@ func specEqualLists() seqmc.Spec {
 	}}
 }
 
+// specToStringsDeep: long paths - 12..22 plain elements followed by one list
+// element with 0..3 keys and 0..2 more plain elements - with and without
+// target / origin in front: the index has no length at which it changes shape
+// (the conversion preallocates for 20 strings).
+func specToStringsDeep() seqmc.Spec {
+	var cases []tsCase
+	ks := [][]string{nil, {"k1"}, {"k2", "k1"}, {"k3", "k1", "k2"}}
+	for n := 12; n <= 22; n++ {
+		for _, k := range ks {
+			for tail := 0; tail <= 2; tail++ {
+				var es []elemSpec
+				for i := 0; i < n; i++ {
+					es = append(es, elemSpec{fmt.Sprintf("e%d", i), nil})
+				}
+				es = append(es, elemSpec{"l", k})
+				for i := 0; i < tail; i++ {
+					es = append(es, elemSpec{fmt.Sprintf("t%d", i), nil})
+				}
+				for _, pf := range []bool{false, true} {
+					cases = append(cases, tsCase{es, "elem", "tgt", "org", pf}, tsCase{es, "elem", "", "", pf})
+				}
+			}
+		}
+	}
+	return seqmc.Spec{Name: fmt.Sprintf("ToStrings on long paths: 12..22 plain elements, then a list element with 0..3 keys, then 0..2 more (%d cases)", len(cases)), N: len(cases), Run: func(i int) (string, bool, []seqmc.Violation) {
+		c := cases[i]
+		p, want := c.build()
+		desc := fmt.Sprintf("%d elements, keys=%v, target/origin=%q/%q prefix=%v", len(c.elems), c.elems[len(c.elems)-1].keys, c.target, c.origin, c.prefix)
+		var got []string
+		if pn := catch(func() { got = path.ToStrings(p, c.prefix) }); pn != nil {
+			return desc, true, vio("tostrings-panic", "ToStrings panics on %s: %v", desc, pn)
+		}
+		if !reflect.DeepEqual(got, want) {
+			return desc, true, vio("tostrings", "ToStrings on %s = %q, expected %q", desc, got, want)
+		}
+		return desc, true, nil
+	}}
+}
+
 type harness struct{}
 
 func (harness) Property() string { return "C19" }
 func (harness) Specs(tier string) []seqmc.Spec {
 	if tier == "thorough" {
-		return []seqmc.Spec{specToStrings(3), specCompletePath(), specQuery(4), specScalars(), specEqual(), specEqualLists()}
+		return []seqmc.Spec{specToStrings(3), specCompletePath(), specQuery(4), specScalars(), specEqual(), specEqualLists(), specToStringsDeep()}
 	}
-	return []seqmc.Spec{specToStrings(2), specCompletePath(), specQuery(3), specScalars(), specEqual(), specEqualLists()}
+	return []seqmc.Spec{specToStrings(2), specCompletePath(), specQuery(3), specScalars(), specEqual(), specEqualLists(), specToStringsDeep()}
 }
 
 func main() { seqmc.Main(harness{}) }
